@@ -212,6 +212,12 @@ def handle (j : Json) : List (String × Json) :=
                              toDsk := optPath args "to_dsk", files := sel, append := getBool args "append" }
     let r := VF.utilMain (fsOfJson j) a
     [("exit", natJ r.exit), ("fs", fsJson r.fs)]
+  | "spec.opmodes" =>
+    let amName : Spec.MC6809.AM → String
+      | .inh => "inh" | .imm8 => "imm8" | .imm16 => "imm16" | .dir => "dir" | .idx => "idx" | .ext => "ext"
+      | .rel8 => "rel8" | .rel16 => "rel16" | .pair => "pair" | .list => "list"
+    [("map", Json.arr (Spec.MC6809.opcodeMap.map (fun (c, op, am) => Json.arr #[natJ c, Json.str op, Json.str (amName am)])).toArray),
+     ("aliases", Json.arr (Spec.MC6809.aliases.map (fun (a, b) => Json.arr #[Json.str a, Json.str b])).toArray)]
   | "spec.decode" =>
     match Spec.MC6809.decode (ofHex (getStr j "hex")) with
     | some (i, n) => [("ok", Json.bool true), ("n", natJ n), ("opn", Json.str i.op)] ++ operandJson i.operand
